@@ -175,7 +175,7 @@ def whole_runs(ck, rng, thorough, evalfam):
         scs.append(s)
     outs = run_impl_parallel("simlib", [{"scenarios": [simgen.to_impl(x) for x in ch], "observe": "all"} for ch in chunked(scs, 20)], timeout=3600)
     impl = [r for o in outs for r in o["out"]]
-    rows, meta = [], []
+    rows, meta, skipped = [], [], [0]
     for i, (sc, io) in enumerate(zip(scs, impl)):
         for ob in io["obs"]:
             if ob.get("cb") != "book" or "expo" not in ob:
@@ -195,12 +195,15 @@ def whole_runs(ck, rng, thorough, evalfam):
                     os_.append(coq_order(k, d))
                 if not os_:
                     continue
+                if any(o["sel"] == sel and o["remaining"] < 0 for o in mine):
+                    skipped[0] += 1        # an order left with a negative remainder by the void of a partly cancelled order (known finding F-C04-1): not an input of this property
+                    continue
                 rows.append("(%s, None, None, %s, %s)" % (cl(os_), zl(vals[:6]), z(vals[6])))
                 meta.append((i, ob["pt"], ob["s"], sel))
     cmp_, pbad = evalfam("c16run", rows, "selq", "sel_cmp", "sel_prop")
     mis = [k for k, v in enumerate(cmp_) if v == 2]
     ck.family("exposures_over_whole_runs", len(rows), len(set(rows)), mis, pbad, ambiguous=sum(1 for v in cmp_ if v == 1),
-              dist={"runs": len(scs), "snapshots_with_orders": len(rows), "runs_aborted_by_impl": sum(1 for io in impl if io["error"])})
+              dist={"runs": len(scs), "snapshots_with_orders": len(rows), "snapshots_skipped_negative_remainder_F-C04-1": skipped[0], "runs_aborted_by_impl": sum(1 for io in impl if io["error"])})
     for k in (pbad or mis)[:2]:
         i, pt, st, sel = meta[k]
         ck.fail("C16-whole-run", "at the update published at %s strategy %d's reported exposures on selection %d differ from the worst case over its orders as they are at that instant" % (pt, st, sel),
